@@ -35,9 +35,9 @@ class Prog:
     def parsed(self) -> bool:
         return self.D is not None and not isinstance(self.D, Raised)
 
-    def lib_state(self, st: RefState, D=None):
+    def lib_state(self, st: RefState, D=None, order=None):
         D = D if D is not None else self.D
-        return make_state(D, self.S.name, self.objects, st, constants=self.S.constants)
+        return make_state(D, self.S.name, self.objects, st, constants=self.S.constants, order=order)
 
     def op(self, action: str, args, prob, D=None):
         D = D if D is not None else self.D
